@@ -1,8 +1,23 @@
 """C16: the scalar decision structure of segmetrics.segment_mean (used by reports.group_by_genes), translated
 statement by statement; table-level quantities it reads (row count, presence / any-ness of the weight column, the two
-averages) are opaque typed inputs.  reports.py itself is loops over generators (`if cond: yield row`,
-`breakpoints.append(...)`, chained comparisons), which the translator does not cover; those sites are pinned by the
-fail-closed source locators of tools/genspecs/c16.py instead."""
+averages) are opaque typed inputs.
+
+Loop ties (one iteration of each loop as a step function, tied to Model/Genes.v in Proofs/FnGenes*.v, restated as
+C16_source_* at the end of Props/C16.v): gene_metrics_by_gene, group_by_genes, gene_metrics_by_segment (outer step +
+the inner body's stores), get_breakpoints (inner + outer), CopyNumArray.by_gene, CopyNumArray.squash_genes.
+Not tied (dictionary / comprehension code with no scalar decision left once the containers are opaque):
+get_gene_intervals' two loops, _get_gene_map's double loop, squash_rows' body -- pinned by tools/genspecs/c16.py.
+
+Mutations tried on a scratch copy (each breaks the named Proofs file, i.e. an obligation of C16; none survives):
+  FnGenesByGene    `abs(row.log2) >= threshold` -> `>` ; `and row.gene` -> `or row.gene`
+  FnGenesGroup     `not rows or gene in ignore` -> `and` ; `len(rows)` -> `len(rows) - 1` ;
+                   `rows["depth"].mean()` -> `rows["weight"].sum()` ; `segmean is None` -> `np.isnan(segmean)`
+  FnGenesBySegment `abs(segment.log2) >= threshold` -> `>` ; `row["segment_weight"] = segment.weight` -> `segment.log2` ;
+                   `hasattr(segment, "probes")` -> `"weight"` (translator refuses: fragment not found)
+  FnGenesBreaks    `gstarts[0] < curr_end` -> `<=` ; `and probes_right >= min_probes` -> `or` ;
+                   `next_row.log2 - curr_row.log2` reversed ; `next_row.chromosome != curr_chrom` -> `==`
+  FnGenesWalk      `gene_idx[-1] + 1` -> `gene_idx[-1]` ; `prev_idx < start_idx` -> `<=` ; `iloc[start_idx:end_idx]` -> `iloc[prev_idx:end_idx]`
+  FnGenesSquash    `and not squash_antitarget` -> `and squash_antitarget` ; `if not len(subarr)` -> `if len(subarr)`"""
 MODULES = {
     'FnGenesSegmean': ('cnvlib/segmetrics.py', [
         dict(name='segment_mean', coq='fn_segment_mean', py_params=['cnarr', 'skip_low'],
@@ -25,5 +40,115 @@ MODULES = {
                      ('table.segment_probes', 'Z', 'segment_probes'),
                      ('table.probes', 'Z', 'probes')],
              ret='Z'),
+    ]),
+    # ---- loop ties (LOOP_TIES_GUIDE) ---------------------------------------------------------------------------------
+    # gene_metrics_by_gene: ONE ITERATION of `for row in group_by_genes(cnarr, skip_low):` -- the rows it yields (the row
+    # itself, an opaque id, or none).  row.log2 is a float that may be NaN (None): abs(NaN) >= t is False.
+    # (Proofs/FnGenesByGene.v: C16_source_by_gene_step / C16_source_by_gene)
+    'FnGenesByGene': ('cnvlib/reports.py', [
+        dict(name='gene_metrics_by_gene', coq='fn_by_gene_step', py_params=['cnarr', 'threshold', 'skip_low'],
+             loop=dict(first='for row in group_by_genes('), carried=[], yields=['Z'],
+             params=[('row', 'Z', 'row_id'), ('row.log2', 'OQ', 'row_log2'), ('threshold', 'Q'), ('row.gene', 'S', 'row_gene')],
+             ret='Y'),
+    ]),
+    # group_by_genes: ONE ITERATION of `for gene, rows in cnarr.by_gene():` -- the skip rules, the stores into the copy
+    # of the first row, the yield.  `rows` in a boolean position is its truthiness (GenomicArray.__bool__: it has rows);
+    # `gene in ignore` (the tuple is pinned by tools/genspecs/c16.py) and the table aggregates are opaque typed inputs
+    # keyed by their source text; segment_mean returns a float (NaN = None here), never Python's None, so the opaque
+    # input `segmean is None` is False in the tie (C16_source_segment_mean ties its three returns).  The carried
+    # `outrow[...]` are the fields of the yielded row: on entry those of rows[0] (outrow = rows[0].copy()).
+    # (Proofs/FnGenesGroup.v: C16_source_group_step / C16_source_group_by_genes)
+    'FnGenesGroup': ('cnvlib/reports.py', [
+        dict(name='group_by_genes', coq='fn_group_step', py_params=['cnarr', 'skip_low'],
+             loop=dict(first='for gene, rows in cnarr.by_gene()'),
+             carried=[("outrow['end']", 'Z'), ("outrow['gene']", 'S'), ("outrow['log2']", 'OQ'), ("outrow['probes']", 'Z'),
+                      ("outrow['weight']", 'Q'), ("outrow['depth']", 'Q')],
+             yields=['Z'],
+             params=[('rows', 'B', 'rows_nonempty'), ('gene', 'S'), ('gene in ignore', 'B', 'gene_ignored'),
+                     ('segment_mean(rows, skip_low)', 'OQ', 'segmean_value'), ('segmean is None', 'B', 'segmean_is_none'),
+                     ('rows[0].copy()', 'Z', 'first_row_copy'),
+                     ("outrow['end']", 'Z', 'first_end'), ("outrow['gene']", 'S', 'first_gene'),
+                     ("outrow['log2']", 'OQ', 'first_log2'), ("outrow['probes']", 'Z', 'first_probes'),
+                     ("outrow['weight']", 'Q', 'first_weight'), ("outrow['depth']", 'Q', 'first_depth'),
+                     ('rows.end.iat[-1]', 'Z', 'last_end'), ('len(rows)', 'Z', 'n_rows'),
+                     ("'weight' in rows", 'B', 'has_weight'), ("rows['weight'].sum()", 'Q', 'weight_sum'),
+                     ("'depth' in rows", 'B', 'has_depth'),
+                     ("np.average(rows['depth'], weights=rows['weight'])", 'Q', 'weighted_depth'),
+                     ("rows['depth'].mean()", 'Q', 'mean_depth')],
+             ret=['Z', 'S', 'OQ', 'Z', 'Q', 'Q']),
+    ]),
+    # gene_metrics_by_segment: ONE ITERATION of the outer loop `for segment, subprobes in cnarr.by_ranges(segments):`
+    # (the threshold on the SEGMENT's log2; the inner loop is an opaque range whose yields enter as a parameter) and the
+    # per-row overrides of the inner loop as a fragment (log2 := the segment's, segment_weight / segment_probes when the
+    # segment has the attribute; the `for colname in extra_cols` copy is outside the model's columns).
+    # (Proofs/FnGenesBySegment.v: C16_source_by_segment_step / _row / C16_source_by_segment)
+    'FnGenesBySegment': ('cnvlib/reports.py', [
+        dict(name='gene_metrics_by_segment', coq='fn_by_segment_step', py_params=['cnarr', 'segments', 'threshold', 'skip_low'],
+             loop=dict(first='for segment, subprobes in cnarr.by_ranges(segments)'), carried=[], yields=['Z'],
+             opaque=[dict(first='for row in group_by_genes(subprobes, skip_low)', last='for row in group_by_genes(subprobes, skip_low)',
+                          yields='inner_rows')],
+             params=[('segment.log2', 'OQ', 'segment_log2'), ('threshold', 'Q'), ('inner_rows', 'Y')],
+             ret='Y'),
+        dict(name='gene_metrics_by_segment', coq='fn_by_segment_row', py_params=['cnarr', 'segments', 'threshold', 'skip_low'],
+             fragment=dict(first="row['log2'] = segment.log2", last="if hasattr(segment, 'probes')"),
+             params=[('segment.log2', 'OQ', 'segment_log2'),
+                     ("hasattr(segment, 'weight')", 'B', 'has_weight'), ('segment.weight', 'OQ', 'segment_weight'),
+                     ("hasattr(segment, 'probes')", 'B', 'has_probes'), ('segment.probes', 'OZ', 'segment_probes'),
+                     ("row['segment_weight']", 'OQ', 'row_segment_weight'), ("row['segment_probes']", 'OZ', 'row_segment_probes')],
+             returns=["row['log2']", "row['segment_weight']", "row['segment_probes']"], ret=['OQ', 'OQ', 'OZ']),
+    ]),
+    # get_breakpoints: ONE ITERATION of the inner loop `for gname, gstarts, gend in intervals[curr_chrom]:` (the chained
+    # test gstarts[0] < curr_end < gend, the min_probes test on both counts, the appended tuple; the two probe counts are
+    # opaque inputs keyed by their source text; `breakpoints.append(t)` is read as `yield t`) and ONE ITERATION of the
+    # outer loop `for i, curr_row in enumerate(segments[:-1]):` (skip when the next segment is on another chromosome; the
+    # inner loop is an opaque range whose appended tuples enter as a parameter).
+    # (Proofs/FnGenesBreaks.v: C16_source_break_at / C16_source_breakpoints)
+    'FnGenesBreaks': ('cnvlib/reports.py', [
+        dict(name='get_breakpoints', coq='fn_break_inner', py_params=['intervals', 'segments', 'min_probes'],
+             loop=dict(first='for gname, gstarts, gend in intervals[curr_chrom]'), carried=[],
+             yields=['S', 'S', 'Z', 'Q', 'Z', 'Z'], append_yields='breakpoints',
+             params=[('gname', 'S'), ('curr_chrom', 'S'), ('curr_end', 'Z'), ('gstarts[0]', 'Z', 'first_start'), ('gend', 'Z'),
+                     ('sum(s < curr_end for s in gstarts)', 'Z', 'n_left'),
+                     ('sum(s >= curr_end for s in gstarts)', 'Z', 'n_right'),
+                     ('min_probes', 'Z'), ('next_row.log2', 'Q', 'next_log2'), ('curr_row.log2', 'Q', 'curr_log2')],
+             ret='Y'),
+        dict(name='get_breakpoints', coq='fn_break_outer', py_params=['intervals', 'segments', 'min_probes'],
+             loop=dict(first='for i, curr_row in enumerate(segments[:-1])'), carried=[],
+             yields=['S', 'S', 'Z', 'Q', 'Z', 'Z'],
+             opaque=[dict(first='for gname, gstarts, gend in intervals[curr_chrom]',
+                          last='for gname, gstarts, gend in intervals[curr_chrom]', yields='inner_breaks')],
+             params=[('curr_row.chromosome', 'S', 'curr_chromosome'), ('curr_row.end', 'Z', 'curr_row_end'),
+                     ('segments[i + 1]', 'Z', 'next_row_id'), ('next_row.chromosome', 'S', 'next_chromosome'),
+                     ('inner_breaks', 'Y')],
+             ret='Y'),
+    ]),
+    # CopyNumArray.by_gene: ONE ITERATION of `for gene, gene_idx in gene_map.items():` -- the carried prev_idx and the
+    # (name, rows) pairs it yields; the rows `subgary.as_dataframe(subgary.data.iloc[a:b])` are yielded as the two
+    # positions a, b (slice_views).  `gene not in ignore` and the first / last position of the gene are opaque inputs.
+    # (Proofs/FnGenesWalk.v: C16_source_walk_step / C16_source_walk -- the step folded over the gene map, the telomere
+    #  tail after it, IS Model/Genes.v walk)
+    'FnGenesWalk': ('cnvlib/cnary.py', [
+        dict(name='CopyNumArray.by_gene', coq='fn_walk_step', py_params=['self', 'ignore'],
+             loop=dict(first='for gene, gene_idx in gene_map.items()'),
+             carried=[('prev_idx', 'Z')], yields=['S', 'Z', 'Z'],
+             slice_views=dict(base='subgary.data.iloc', wrappers=['subgary.as_dataframe'], length='len(subgary)'),
+             params=[('prev_idx', 'Z'), ('gene', 'S'), ('gene not in ignore', 'B', 'gene_is_real'),
+                     ('len(gene_idx)', 'Z', 'n_idx'), ('gene_idx[0]', 'Z', 'first_idx'), ('gene_idx[-1]', 'Z', 'last_idx'),
+                     ('params.ANTITARGET_NAME', 'S', 'antitarget_name')],
+             ret='Z'),
+    ]),
+    # CopyNumArray.squash_genes: ONE ITERATION of `for name, subarr in self.by_gene(ignore):` -- which rows (opaque ids)
+    # the iteration adds to outrows: none for an empty group, the group's own rows (subarr.data.itertuples, an opaque
+    # list) for an Antitarget group unless squash_antitarget, else the one row squash_rows builds.
+    # (Proofs/FnGenesSquash.v: C16_source_squash_step / C16_source_squash_genes)
+    'FnGenesSquash': ('cnvlib/cnary.py', [
+        dict(name='CopyNumArray.squash_genes', coq='fn_squash_step',
+             py_params=['self', 'summary_func', 'squash_antitarget', 'ignore'],
+             loop=dict(first='for name, subarr in self.by_gene(ignore)'), carried=[], yields=['Z'],
+             append_yields='outrows',
+             params=[('len(subarr)', 'Z', 'n_rows'), ('name in params.ANTITARGET_ALIASES', 'B', 'is_antitarget'),
+                     ('squash_antitarget', 'B'), ('subarr.data.itertuples(index=False)', 'Y', 'own_rows'),
+                     ('squash_rows(name, subarr.data)', 'Z', 'squashed_row')],
+             ret='Y'),
     ]),
 }
